@@ -220,7 +220,7 @@ func observe(ctx context.Context, s *side) string {
 		got  []string
 	}
 	wctx, cancel := context.WithCancel(ctx)
-	ws := []*w{{name: "watch-a"}, {name: "kind-bootstrap"}, {name: "agg-tail2"}, {name: "kind-label"}, {name: "watch-a-tail1"}, {name: "agg-2terms"}}
+	ws := []*w{{name: "watch-a"}, {name: "kind-bootstrap"}, {name: "agg-tail2"}, {name: "kind-label"}, {name: "watch-a-tail1"}, {name: "agg-2terms"}, {name: "agg-id~^a"}, {name: "kind-id~^b"}, {name: "agg-id+label"}}
 	for _, x := range ws {
 		x.ch, x.ach = make(chan state.Event), make(chan []state.Event)
 	}
@@ -230,6 +230,9 @@ func observe(ctx context.Context, s *side) string {
 	ws[3].err = s.st.WatchKind(wctx, hx.IntKind(), ws[3].ch, state.WithBootstrapContents(true), state.WatchWithLabelQuery(resource.LabelExists("l")))
 	ws[4].err = s.st.Watch(wctx, hx.IntPtr("a"), ws[4].ch, state.WithTailEvents(1))
 	ws[5].err = s.st.WatchKindAggregated(wctx, hx.IntKind(), ws[5].ach, state.WithBootstrapContents(true), state.WatchWithLabelQuery(resource.LabelExists("zz", resource.NotMatches), resource.LabelExists("l")))
+	ws[6].err = s.st.WatchKindAggregated(wctx, hx.IntKind(), ws[6].ach, state.WithBootstrapContents(true), state.WatchWithIDQuery(resource.IDRegexpMatch(regexp.MustCompile("^a"))))
+	ws[7].err = s.st.WatchKind(wctx, hx.IntKind(), ws[7].ch, state.WithBootstrapContents(true), state.WatchWithIDQuery(resource.IDRegexpMatch(regexp.MustCompile("^b"))))
+	ws[8].err = s.st.WatchKindAggregated(wctx, hx.IntKind(), ws[8].ach, state.WithKindTailEvents(3), state.WatchWithIDQuery(resource.IDRegexpMatch(regexp.MustCompile("^a"))), state.WatchWithLabelQuery(resource.LabelExists("l")))
 	for _, x := range ws {
 		x := x
 		if x.err != nil {
